@@ -304,3 +304,507 @@ def run(repo: Repo, rep: Report) -> None:
     from checks.c16 import json_memo_rule
 
     json_memo_rule(repo, rep, "C20.f-json-result-terms-parsed-individually")
+
+
+# ======================================================================================================================
+# second layer: the text that is sent (update rewriting, graph designators, paging, request address), what a failed
+# autocommit write leaves behind, and the shape of what triples() yields
+# ======================================================================================================================
+_run_base = run
+
+_STORE_MODS = ("rdflib.plugins.stores.sparqlstore", "rdflib.plugins.stores.sparqlconnector")
+
+
+def _fn_params(fn: ast.AST) -> set[str]:
+    a = fn.args  # type: ignore[attr-defined]
+    return {x.arg for x in a.posonlyargs + a.args + a.kwonlyargs + ([a.vararg] if a.vararg else []) + ([a.kwarg] if a.kwarg else [])}
+
+
+def _pattern_names(m) -> set[str]:
+    """names bound to re.compile(...) in the module body or a class body"""
+    from vlib import h_c20 as H
+
+    out = set()
+    for n in ast.walk(m.tree):
+        if isinstance(n, ast.Assign) and H.is_re_compile(n.value):
+            for t in n.targets:
+                if isinstance(t, ast.Name):
+                    out.add(t.id)
+                elif isinstance(t, ast.Attribute):
+                    out.add(t.attr)
+    return out
+
+
+def _regex_sub_calls(repo: Repo, m, fn: ast.AST):
+    """(call, replacement argument) of every regular-expression substitution in fn: re.sub/subn(p, repl, s) and
+    <compiled pattern>.sub/subn(repl, s), the receiver being recognised by its binding to re.compile or by its type"""
+    pats = _pattern_names(m)
+    for n in own_nodes(fn, include_nested=True):
+        if not (isinstance(n, ast.Call) and isinstance(n.func, ast.Attribute) and n.func.attr in ("sub", "subn")):
+            continue
+        recv = n.func.value
+        kw = next((k.value for k in n.keywords if k.arg == "repl"), None)
+        if isinstance(recv, ast.Name) and recv.id == "re":
+            yield n, kw if kw is not None else (n.args[1] if len(n.args) > 1 else None)
+            continue
+        tf = repo.typed.type_of(m.name, recv)
+        is_pat = (isinstance(recv, ast.Name) and recv.id in pats) or (isinstance(recv, ast.Attribute) and recv.attr in pats) \
+            or (tf is not None and "Pattern" in tf.text)
+        if is_pat:
+            yield n, kw if kw is not None else (n.args[0] if n.args else None)
+
+
+def _is_backslash_doubling(e: ast.AST) -> bool:
+    return isinstance(e, ast.Call) and isinstance(e.func, ast.Attribute) and e.func.attr == "replace" and len(e.args) >= 2 \
+        and isinstance(e.args[0], ast.Constant) and e.args[0].value in ("\\", b"\\") \
+        and isinstance(e.args[1], ast.Constant) and e.args[1].value in ("\\\\", b"\\\\")
+
+
+def _repl_kind(repo: Repo, m, fn: ast.AST, e: ast.AST | None, depth: int = 4) -> str:
+    """'callable' | 'constant' | 'escaped' | 'dynamic' | 'unknown' for the replacement argument of a substitution"""
+    from vlib import h_c20 as H
+
+    if e is None:
+        return "unknown"
+    if isinstance(e, ast.Lambda):
+        return "callable"
+    if isinstance(e, ast.Constant):
+        return "constant"
+    if _is_backslash_doubling(e):
+        return "escaped"
+    if isinstance(e, ast.Name):
+        defs = H.local_defs(fn).get(e.id, [])
+        if defs and depth > 0:
+            kinds = {_repl_kind(repo, m, fn, v, depth - 1) for _s, v in defs}
+            for k in ("dynamic", "unknown", "escaped", "constant", "callable"):
+                if k in kinds:
+                    return k
+        if any(isinstance(d, (ast.FunctionDef, ast.AsyncFunctionDef)) and d.name == e.id for d in ast.walk(m.tree)):
+            return "callable"
+    if isinstance(e, ast.BinOp) and isinstance(e.op, ast.Add):
+        kinds = {_repl_kind(repo, m, fn, x, depth) for x in (e.left, e.right)}
+        if kinds <= {"constant"}:
+            return "constant"
+        if kinds <= {"constant", "escaped"}:
+            return "escaped"
+        return "dynamic"
+    if isinstance(e, (ast.BinOp, ast.JoinedStr)) or (isinstance(e, ast.Call) and isinstance(e.func, ast.Attribute) and e.func.attr in ("format", "join")) \
+            or (isinstance(e, ast.Call) and isinstance(e.func, ast.Name) and e.func.id in ("str", "repr")):
+        cls = m.qual_of(fn).rsplit(".", 1)[0] if "." in m.qual_of(fn) else None
+        if H.StrEnv(m, cls if cls and isinstance(m.defs.get(cls), ast.ClassDef) else None).value(e) is not None:  # type: ignore[arg-type]
+            return "constant"
+        return "dynamic"
+    tf = repo.typed.type_of(m.name, e)
+    if tf is not None:
+        if tf.text.startswith("def ") or "Callable" in tf.text:
+            return "callable"
+        if any(t in tf.text for t in ("str", "bytes", "Literal", "URIRef", "Identifier", "Node")):
+            return "dynamic"
+    return "unknown"
+
+
+def _graph_polarity(test: ast.expr, x: str, dflt: set[str]) -> bool | None:
+    """True: the test being true implies that the graph designator x is a named graph (not the dataset's default graph);
+    False: the test being false implies it; None: the test decides nothing about x"""
+    if isinstance(test, ast.Call) and isinstance(test.func, ast.Attribute) and test.func.attr == "_is_contextual" and test.args and norm(test.args[0]) == x:
+        return True
+    if isinstance(test, ast.Compare) and len(test.ops) == 1:
+        sides = [test.left, test.comparators[0]]
+        if any(norm(s) in (x, x + ".identifier") for s in sides) and any(isinstance(n, ast.Name) and n.id in dflt for s in sides for n in ast.walk(s)):
+            if isinstance(test.ops[0], (ast.NotEq, ast.IsNot)):
+                return True
+            if isinstance(test.ops[0], (ast.Eq, ast.Is)):
+                return False
+        return None
+    if isinstance(test, ast.UnaryOp) and isinstance(test.op, ast.Not):
+        p = _graph_polarity(test.operand, x, dflt)
+        return None if p is None else (not p)
+    if isinstance(test, ast.BoolOp):
+        ps = [_graph_polarity(v, x, dflt) for v in test.values]
+        if isinstance(test.op, ast.And) and any(p is True for p in ps):
+            return True
+        if isinstance(test.op, ast.Or) and any(p is False for p in ps):
+            return False
+    return None
+
+
+def run(repo: Repo, rep: Report) -> None:  # noqa: F811
+    _run_base(repo, rep)
+    from vlib import h_c20 as H
+
+    rep.extra["explanation"] = EXPLANATION + (
+        " Second layer: (g) run-time text never is the replacement TEMPLATE of a regex substitution; (h) no alternative of the update "
+        "tokeniser's ordered choice is shadowed by an earlier one; (i) a graph designator reaches the endpoint only under a test that it is "
+        "not the dataset's default graph, and (j) that predicate compares with the default-graph identifier in every representation; (k) "
+        "paging attributes are read only for the SELECT form; (l) under autocommit the queue is empty when the send can raise; (m) the "
+        "request address keeps an endpoint's own query string; (n) every Store.triples yields an iterable of contexts.")
+    mod = repo.mod(_STORE_MODS[0])
+    con = repo.mod(_STORE_MODS[1])
+    base = mod.methods("SPARQLStore")
+    upd = mod.methods("SPARQLUpdateStore")
+    both = [("SPARQLStore", base), ("SPARQLUpdateStore", upd)]
+
+    # ------------------------------------------------------------------ (g) data never becomes a replacement template
+    rep.rule("C20.g-substituted-text-is-literal",
+             "in the SPARQL store modules, the replacement argument of a regular-expression substitution (re.sub / pattern.sub / subn) that "
+             "carries run-time text is a function (or has its backslashes doubled): a replacement STRING is a template in which `\\\\`, `\\n`, "
+             "`\\g<..>` are processed, so e.g. update(..., initBindings={'x': Literal('a\\\\nb')}) would send the literal with a real newline "
+             "(a different term, or a syntax error for `\\\"`)", floor=1)
+    info = []
+    for mname, m in sorted(repo.modules.items()):
+        gating = mname in _STORE_MODS
+        if not gating and ".sub" not in m.text:
+            continue
+        for q, f in m.functions():
+            if isinstance(m.parent.get(id(f)), (ast.FunctionDef, ast.AsyncFunctionDef)):
+                continue  # nested functions are walked with their parent
+            for call, repl in _regex_sub_calls(repo, m, f):
+                kind = _repl_kind(repo, m, f, repl)
+                if not gating:
+                    if kind == "dynamic":
+                        info.append("%s %s :: %s" % (m.rel, q, norm(call)[:100]))
+                    continue
+                if kind == "unknown":
+                    raise AnalysisError("%s %s: cannot classify the replacement argument of %s" % (m.rel, q, norm(call)[:80]))
+                rep.ob("C20.g-substituted-text-is-literal", m, q, call, kind != "dynamic",
+                       "replacement is %s" % kind if kind != "dynamic" else
+                       "run-time text is passed as the replacement template of a regular-expression substitution: its backslash escapes are "
+                       "processed a second time, so a bound literal containing `\\` reaches the endpoint changed", node=call)
+    rep.info["C20.g-package-wide-template-replacements (information, other properties' scope)"] = info
+
+    # ------------------------------------------------------------------ (h) ordered alternations of the update tokeniser
+    rep.rule("C20.h-no-shadowed-alternative",
+             "in every regular expression the SPARQL store compiles, no alternative of the ordered choice at the end of the pattern is dead: an "
+             "EARLIER alternative that can match a prefix of the text a LATER alternative must start with wins at every position where the later "
+             "one could match (the short string form '...' before the long form '''...''' reads ''' as the empty string '' and then takes the "
+             "braces inside the literal for block delimiters: update(\"INSERT DATA { <a> <b> '''}''' }\") on a named graph is mis-rewritten)", floor=9)
+    n_pat = 0
+    for m in (mod, con):
+        for q, call, pat, flags in H.compiled_patterns(m):
+            n_pat += 1
+            alts = H.leaf_alternatives(H.parse_regex(pat, flags))
+            for j in range(1, len(alts)):
+                lit = H.literal_prefix(alts[j])
+                if not lit:
+                    continue
+                shadow = [i for i in range(j) if H.match_ends(alts[i], lit, 0, flags)]
+                rep.ob("C20.h-no-shadowed-alternative", m, q, "alternative %d (starts with %r) of %s" % (j + 1, lit, q), not shadow,
+                       "no earlier alternative matches a prefix of %r" % lit if not shadow else
+                       "alternative %d already matches a prefix of %r, the text alternative %d must start with: alternative %d can never be chosen "
+                       "(e.g. a long string literal is tokenised as an empty short one and its body is scanned for braces)" % (shadow[0] + 1, lit, j + 1, j + 1),
+                       node=call)
+    if n_pat < 3:
+        raise AnalysisError("expected >= 3 compiled regular expressions in the SPARQL store modules, found %d" % n_pat)
+
+    # ------------------------------------------------------------------ (i) the default graph is never addressed by name
+    dflt = H.imported_as(mod, "graph", "DATASET_DEFAULT_GRAPH_ID")
+    if not dflt:
+        raise AnalysisError("sparqlstore no longer imports DATASET_DEFAULT_GRAPH_ID")
+    rep.rule("C20.i-default-graph-never-named",
+             "in SPARQLStore/SPARQLUpdateStore every place where a graph designator reaches the endpoint - `<g>.identifier` rendered into the text "
+             "or passed on, the value of a `default_graph=` argument, the graph argument of _insert_named_graph - is control-dependent on a test "
+             "that excludes the dataset's default graph for that same designator (`self._is_contextual(<g>)` true, or `<g>.identifier` compared "
+             "with DATASET_DEFAULT_GRAPH_ID): otherwise ds.addN([(s, p, o, ds.default_context)]) writes into a NAMED graph <urn:x-rdflib:default> "
+             "that no read of the default graph sees", floor=9)
+    for cls, ms in both:
+        for mname, f in ms.items():
+            if mname == "_is_contextual":
+                continue
+            sinks: list[tuple[ast.AST, str]] = []
+            seen_ids: set[int] = set()
+
+            def add_sink(node: ast.AST, x: str) -> None:
+                if id(node) not in seen_ids:
+                    seen_ids.add(id(node))
+                    sinks.append((node, x))
+
+            for n in own_nodes(f, include_nested=True):
+                if isinstance(n, ast.Attribute) and n.attr == "identifier" and isinstance(n.ctx, ast.Load) and isinstance(n.value, ast.Name) \
+                        and n.value.id not in ("self", "cls") and not isinstance(mod.parent.get(id(n)), ast.Compare):
+                    add_sink(n, n.value.id)
+                if isinstance(n, ast.Call):
+                    vals = [k.value for k in n.keywords if k.arg == "default_graph"]
+                    if isinstance(n.func, ast.Attribute) and n.func.attr == "_insert_named_graph":
+                        vals += n.args[1:2] + [k.value for k in n.keywords if k.arg == "query_graph"]
+                    for v in vals:
+                        for x in ast.walk(v):
+                            if isinstance(x, ast.Name) and isinstance(x.ctx, ast.Load) and x.id not in ("self", "cls") \
+                                    and not (isinstance(mod.parent.get(id(x)), ast.Attribute)) \
+                                    and not any(kind == "test" for _c, kind in H.branch_of(mod, x, n)) \
+                                    and not any(isinstance(p, ast.Call) and p is not n for p in _upto(mod, x, n)):
+                                add_sink(x, x.id)
+            for node, x in sinks:
+                ok = False
+                for cond, kind in H.branch_of(mod, node, f):
+                    if kind == "test":
+                        continue
+                    pol = _graph_polarity(cond.test, x, dflt)  # type: ignore[attr-defined]
+                    if (pol is True and kind == "body") or (pol is False and kind == "orelse"):
+                        ok = True
+                        break
+                rep.ob("C20.i-default-graph-never-named", mod, "%s.%s" % (cls, mname), node, ok,
+                       "only reached for a graph other than the dataset's default graph" if ok else
+                       "the graph designator %s reaches the endpoint without a test that it is not the dataset's default graph: the default graph is "
+                       "addressed as a named graph <urn:x-rdflib:default> (reads of the default graph do not see what was written)" % x, node=node)
+
+    # ------------------------------------------------------------------ (j) the default-graph predicate itself
+    rep.rule("C20.j-default-graph-predicate-complete",
+             "every return of SPARQLStore._is_contextual that can answer True has compared the designator with DATASET_DEFAULT_GRAPH_ID - in "
+             "each representation the predicate accepts (a Graph, or the identifier that Graph.query / Graph.update pass): otherwise "
+             "Dataset(store).update('INSERT DATA {..}') is rewritten into GRAPH <urn:x-rdflib:default> {..} and Dataset.query reads that graph", floor=2)
+    pred = base.get("_is_contextual")
+    if pred is None:
+        raise AnalysisError("SPARQLStore._is_contextual vanished")
+    rep.analysed("rdflib/plugins/stores/sparqlstore.py:SPARQLStore._is_contextual")
+    gp = CFG(pred)
+    for r in [n for n in own_nodes(pred) if isinstance(n, ast.Return)]:
+        if r.value is None or (isinstance(r.value, ast.Constant) and r.value.value in (False, None)):
+            continue
+        ok = H.mentions(r.value, dflt, pred, mod)
+        if not ok:
+            # or every path to the return has passed a test against the default-graph identifier that left on the other branch
+            tests = {gp.by_ast[id(n)] for n in own_nodes(pred) if isinstance(n, ast.If) and H.mentions(n.test, dflt, pred, mod)
+                     and n.body and isinstance(n.body[-1], ast.Return) and id(n) in gp.by_ast}
+            ok = bool(tests) and gp.must_pass_before(gp.node_of(r, mod), tests)
+        rep.ob("C20.j-default-graph-predicate-complete", mod, "SPARQLStore._is_contextual", r, ok,
+               "answers after comparing with the default-graph identifier" if ok else
+               "this return answers True for a designator without comparing it with DATASET_DEFAULT_GRAPH_ID: the dataset's default graph, given in "
+               "this form, is treated as a named graph", node=r)
+
+    # ------------------------------------------------------------------ (k) paging belongs to SELECT
+    rep.rule("C20.k-paging-only-for-select",
+             "in a method that chooses between a SELECT and an ASK form of its query, every read of the graph's paging attributes (LIMIT / OFFSET / "
+             "ORDER BY via hasattr/getattr) depends on the condition that selected SELECT - by control (inside a branch of a test on it) or by "
+             "data (read from a name that is None unless SELECT): an ASK has no solution variable to order by and a single solution to slice, so "
+             "with g.LIMIT set `(s, p, o) in g` raised on None.n3() and with g.OFFSET = 1 a present triple is reported absent", floor=8)
+    pconst = {nm for nm, v in H.StrEnv._assigns(mod.tree.body).items() if isinstance(v, ast.Constant) and v.value in ("LIMIT", "OFFSET", "ORDER BY")}
+    n_forms = 0
+    for cls, ms in both:
+        for mname, f in ms.items():
+            det = _select_determinants(f)
+            if det is None:
+                continue
+            n_forms += 1
+            where = "%s.%s" % (cls, mname)
+            defs = H.local_defs(f)
+            gated: set[str] = set()
+
+            def dep(e: ast.AST) -> bool:
+                return any(isinstance(x, ast.Name) and (x.id in det or x.id in gated) for x in ast.walk(e))
+
+            def ctl(node: ast.AST) -> bool:
+                child = node
+                for p in mod.parents(node):
+                    if isinstance(p, (ast.If, ast.While, ast.IfExp)) and child is not p.test and dep(p.test):
+                        return True
+                    if isinstance(p, ast.BoolOp) and isinstance(p.op, ast.And):
+                        k = next(i for i, v in enumerate(p.values) if v is child)
+                        if any(dep(v) for v in p.values[:k]):
+                            return True
+                    if p is f:
+                        break
+                    child = p
+                return False
+
+            changed = True
+            while changed:
+                changed = False
+                for nm, ds in defs.items():
+                    if nm in gated or nm in det or not ds:
+                        continue
+                    good = True
+                    some = False
+                    for st, v in ds:
+                        if v is not None and isinstance(v, ast.Constant) and v.value is None:
+                            continue
+                        if v is not None and ((isinstance(v, ast.IfExp) and dep(v.test)) or (isinstance(v, ast.BoolOp) and isinstance(v.op, ast.And) and dep(v.values[0])) or ctl(st)):
+                            some = True
+                            continue
+                        good = False
+                    if good and some:
+                        gated.add(nm)
+                        changed = True
+            for n in own_nodes(f):
+                if isinstance(n, ast.Call) and isinstance(n.func, ast.Name) and n.func.id in ("hasattr", "getattr") and len(n.args) >= 2 and (
+                        (isinstance(n.args[1], ast.Name) and n.args[1].id in pconst) or (isinstance(n.args[1], ast.Constant) and n.args[1].value in ("LIMIT", "OFFSET", "ORDER BY"))):
+                    ok = (isinstance(n.args[0], ast.Name) and n.args[0].id in gated) or ctl(n)
+                    rep.ob("C20.k-paging-only-for-select", mod, where, n, ok,
+                           "read only when the query is a SELECT" if ok else
+                           "the paging attribute is read whatever the query form: a fully bound pattern (ASK) gets ORDER BY / LIMIT / OFFSET too "
+                           "(None.n3() when there is no variable; OFFSET skips the only solution)", node=n)
+    if not n_forms:
+        raise AnalysisError("no SPARQLStore method chooses between SELECT and ASK any more")
+
+    # ------------------------------------------------------------------ (l) a rejected autocommit write is not kept queued
+    queue = {norm(r.value) for r in own_nodes(upd["_transaction"]) if isinstance(r, ast.Return) and r.value is not None}
+    if len(queue) != 1:
+        raise AnalysisError("SPARQLUpdateStore._transaction does not return one queue attribute: %s" % sorted(queue))
+    qattr = queue.pop()
+    rep.rule("C20.l-failed-autocommit-write-dropped",
+             "in every SPARQLUpdateStore method that sends (self._update), on the autocommit path the queue is emptied BEFORE the send (or in an "
+             "exception handler / finally around it): the send may raise (endpoint rejects the update), and an edit still queued then is "
+             "re-sent in front of every later write, which fails again - after one rejected add() no later add() reaches the endpoint", floor=1)
+
+    def is_clear(st: ast.AST) -> bool:
+        return isinstance(st, ast.Assign) and any(norm(t) == qattr for t in st.targets) and (
+            (isinstance(st.value, ast.Constant) and st.value.value is None) or (isinstance(st.value, (ast.List, ast.Tuple)) and not st.value.elts))
+
+    def is_clear_call(st: ast.AST) -> bool:
+        return isinstance(st, ast.Expr) and isinstance(st.value, ast.Call) and norm(st.value.func) in (qattr + ".clear", "self.rollback")
+
+    for mname, f in upd.items():
+        sends = [c for c in _self_calls(f) if c.func.attr == "_update"]
+        if not sends:
+            continue
+        g = CFG(f)
+        before: set[int] = set()
+        for n in own_nodes(f):
+            if (is_clear(n) or is_clear_call(n)) and id(n) in g.by_ast:
+                par = mod.parent.get(id(n))
+                if par is f:
+                    before.add(g.by_ast[id(n)])
+                elif isinstance(par, ast.If) and any(n is s for s in par.body) and mod.parent.get(id(par)) is not None:
+                    cj = {norm(v) for v in (par.test.values if isinstance(par.test, ast.BoolOp) and isinstance(par.test.op, ast.And) else [par.test])}
+                    if cj == {"self.autocommit"}:
+                        # the whole `if self.autocommit:` statement stands for "cleared when autocommit is on"
+                        before.add(g.by_ast[id(par)])
+        for s in sends:
+            sn = g.node_of(s, mod)
+            ok = any(g.must_pass_before(sn, {b}) and sn in g.reach(b) and not _inside(mod, s, g.nodes[b].ast) for b in before)
+            if not ok:
+                for p in mod.parents(s):
+                    if isinstance(p, ast.Try) and any(s is x for st in p.body for x in ast.walk(st)):
+                        hs = [st for h in p.handlers if h.type is None or norm(h.type) in ("Exception", "BaseException") for st in h.body] + list(p.finalbody)
+                        if any(is_clear(x) or is_clear_call(x) for st in hs for x in ast.walk(st)):
+                            ok = True
+                    if p is f:
+                        break
+            rep.ob("C20.l-failed-autocommit-write-dropped", mod, "SPARQLUpdateStore." + mname, s, ok,
+                   "with autocommit on the queue is already empty when the send can raise" if ok else
+                   "with autocommit on, the queue is only emptied after the send: if the endpoint rejects the update the exception leaves the edit "
+                   "queued and it is sent again, in front of every later write", node=s)
+
+    # ------------------------------------------------------------------ (m) request address keeps the endpoint's own query string
+    rep.rule("C20.m-endpoint-query-string-kept",
+             "in the SPARQL connector every request whose address is built from urlencode()d parameters chooses the separator after testing "
+             "whether the endpoint address already has a query string ('?' in <address>, or urlsplit/urlparse): with a fixed '?' an endpoint "
+             "http://host/sparql?apikey=k gets ...?apikey=k?query=..., i.e. the query and default-graph-uri are swallowed by the value of apikey", floor=3)
+    info_m = []
+    for mname, m in sorted(repo.modules.items()):
+        gating = mname in _STORE_MODS
+        if not gating and "urlencode" not in m.text:
+            continue
+        enc = H.imported_as(m, "urllib.parse", "urlencode") | {"urlencode"}
+        req = H.imported_as(m, "urllib.request", "Request") | {"Request"}
+        splitters = {"urlsplit", "urlparse", "urlunsplit", "urlunparse", "urljoin"}
+        for q, f in m.functions():
+            for c in own_nodes(f):
+                if not (isinstance(c, ast.Call) and ((isinstance(c.func, ast.Name) and c.func.id in req) or (isinstance(c.func, ast.Attribute) and c.func.attr == "Request"))):
+                    continue
+                url = c.args[0] if c.args else next((k.value for k in c.keywords if k.arg == "url"), None)
+                if url is None:
+                    continue
+                sl = H.backward_slice(url, f, m)
+                has_enc = any(isinstance(x, ast.Call) and ((isinstance(x.func, ast.Name) and x.func.id in enc) or (isinstance(x.func, ast.Attribute) and x.func.attr == "urlencode")) for x in sl)
+                if not has_enc:
+                    continue  # no parameters in the address (they travel in the body)
+                tested = any(
+                    (isinstance(x, ast.Compare) and any(isinstance(o, (ast.In, ast.NotIn)) for o in x.ops) and isinstance(x.left, ast.Constant) and isinstance(x.left.value, str) and "?" in x.left.value)
+                    or (isinstance(x, ast.Call) and isinstance(x.func, ast.Attribute) and x.func.attr in ("find", "rfind", "index", "count", "partition", "rpartition", "split", "endswith")
+                        and any(isinstance(a, ast.Constant) and isinstance(a.value, str) and "?" in a.value for a in x.args))
+                    or (isinstance(x, ast.Call) and ((isinstance(x.func, ast.Name) and x.func.id in splitters) or (isinstance(x.func, ast.Attribute) and x.func.attr in splitters)))
+                    for x in sl)
+                if gating:
+                    rep.analysed("%s:%s" % (m.rel, q))
+                    rep.ob("C20.m-endpoint-query-string-kept", m, q, c, tested,
+                           "separator chosen after looking for an existing query string" if tested else
+                           "the parameters are appended to the endpoint address with a fixed separator: when the address already has a query string "
+                           "(http://host/sparql?apikey=k) the protocol parameters (query, default-graph-uri, using-graph-uri) become part of its last value", node=c)
+                elif not tested:
+                    info_m.append("%s %s :: %s" % (m.rel, q, norm(c)[:100]))
+    rep.info["C20.m-package-wide-fixed-separator (information, other properties' scope)"] = info_m
+
+    # ------------------------------------------------------------------ (n) what triples() yields
+    rep.rule("C20.n-triples-yield-context-iterator",
+             "every Store implementation's triples()/triples_choices() yields pairs (triple, <iterator of contexts>): the second member is never None "
+             "(Graph.quads / Dataset.__iter__ / ConjunctiveGraph.quads iterate it; SPARQLStore yielded None, so `for q in Dataset(store)` raised "
+             "TypeError instead of listing the endpoint's quads)", floor=20)
+    n_sparql = 0
+    for full in sorted(repo.typed.subclasses("rdflib.store.Store")):
+        mn, _, cn = full.rpartition(".")
+        if mn not in repo.modules or not isinstance(repo.modules[mn].defs.get(cn), ast.ClassDef):
+            continue
+        sm = repo.modules[mn]
+        for mname, f in sm.methods(cn).items():
+            if mname not in ("triples", "triples_choices"):
+                continue
+            defs = H.local_defs(f)
+            for y in own_nodes(f):
+                if not (isinstance(y, ast.Yield) and isinstance(y.value, ast.Tuple) and len(y.value.elts) == 2):
+                    continue
+                second = y.value.elts[1]
+                none = isinstance(second, ast.Constant) and second.value is None
+                if isinstance(second, ast.Name) and second.id not in _fn_params(f):
+                    ds = defs.get(second.id, [])
+                    none = bool(ds) and all(v is not None and isinstance(v, ast.Constant) and v.value is None for _s, v in ds)
+                if mn == _STORE_MODS[0]:
+                    n_sparql += 1
+                rep.analysed("%s:%s.%s" % (sm.rel, cn, mname))
+                rep.ob("C20.n-triples-yield-context-iterator", sm, "%s.%s" % (cn, mname), y.value, not none,
+                       "yields an iterable of contexts" if not none else
+                       "yields None where the Store interface promises an iterator over the triple's contexts: quads() and iteration over a "
+                       "Dataset/ConjunctiveGraph on this store raise TypeError ('NoneType' object is not iterable)", node=y)
+    if n_sparql < 2:
+        raise AnalysisError("SPARQLStore.triples no longer yields (triple, contexts) pairs that the rule can see")
+
+
+def _upto(m, node: ast.AST, stop: ast.AST):
+    for p in m.parents(node):
+        if p is stop:
+            return
+        yield p
+
+
+def _inside(m, node: ast.AST, container: ast.AST | None) -> bool:
+    """is node inside the `if` statement `container` itself (either branch)?  Such a send is not 'after the statement'."""
+    if not isinstance(container, ast.If):
+        return False
+    return any(node is x for st in container.orelse for x in ast.walk(st)) or any(node is x for st in container.body for x in ast.walk(st))
+
+
+def _str_head(e: ast.AST) -> str | None:
+    """leading constant text of a string-building expression"""
+    if isinstance(e, ast.Constant) and isinstance(e.value, str):
+        return e.value
+    if isinstance(e, ast.BinOp) and isinstance(e.op, (ast.Mod, ast.Add)):
+        return _str_head(e.left)
+    if isinstance(e, ast.JoinedStr) and e.values:
+        return _str_head(e.values[0])
+    if isinstance(e, ast.Call) and isinstance(e.func, ast.Attribute) and e.func.attr == "format":
+        return _str_head(e.func.value)
+    return None
+
+
+def _select_determinants(f: ast.AST) -> set[str] | None:
+    """names read by the condition under which f's query text starts with SELECT rather than ASK (None: f has no such choice)"""
+
+    def form(e: ast.AST) -> str | None:
+        h = _str_head(e)
+        if h is None:
+            return None
+        h = h.lstrip().upper()
+        return "SELECT" if h.startswith("SELECT") else ("ASK" if h.startswith("ASK") else None)
+
+    for n in own_nodes(f):
+        pairs: list[tuple[ast.expr, set]] = []
+        if isinstance(n, ast.If) and n.orelse:
+            a = {norm(t): form(s.value) for s in n.body if isinstance(s, ast.Assign) for t in s.targets}
+            b = {norm(t): form(s.value) for s in n.orelse if isinstance(s, ast.Assign) for t in s.targets}
+            for k in set(a) & set(b):
+                pairs.append((n.test, {a[k], b[k]}))
+        if isinstance(n, ast.IfExp):
+            pairs.append((n.test, {form(n.body), form(n.orelse)}))
+        for test, forms in pairs:
+            if forms == {"SELECT", "ASK"}:
+                return {x.id for x in ast.walk(test) if isinstance(x, ast.Name)}
+    return None
